@@ -126,6 +126,7 @@ pub fn u3_zone(subject: &str, pattern: &str) -> bool {
 fn strict_eq(a: &J, b: &J) -> bool {
     match (a, b) {
         (J::Num(N::Int(x)), J::Num(N::Int(y))) => x == y,
+        (J::Num(N::Big(x)), J::Num(N::Big(y))) => x == y,
         (J::Num(N::Float(x)), J::Num(N::Float(y))) => x == y,
         (J::Num(_), J::Num(_)) => false,
         (J::Arr(x), J::Arr(y)) => x.len() == y.len() && x.iter().zip(y).all(|(p, q)| strict_eq(p, q)),
@@ -329,7 +330,7 @@ impl<'a> Ctx<'a> {
                 let b = self.operand(rhs, cur)?;
                 // zone U2: a number outside the exact range meets a float (or is one). Two
                 // integers are compared exactly whatever their magnitude, so they are judged.
-                let both_int = matches!((a.get(), b.get()), (Some(J::Num(N::Int(_))), Some(J::Num(N::Int(_)))));
+                let both_int = matches!((a.get(), b.get()), (Some(J::Num(x)), Some(J::Num(y))) if x.is_integer_typed() && y.is_integer_typed());
                 let both_num = matches!((a.get(), b.get()), (Some(J::Num(_)), Some(J::Num(_))));
                 let both_float = matches!((a.get(), b.get()), (Some(J::Num(N::Float(_))), Some(J::Num(N::Float(_)))));
                 if both_num && !both_int {
